@@ -93,6 +93,36 @@ def firstFail : (fuel : Nat) → Bytes → Option Bool
       | .invalid => some true
       | .incomplete => some false
 
+/-- `mbsq`: consecutive `mbsnrtowcs` calls on one conversion state; per call `ret@off/errno/mbsinit/dst` -/
+def mbsqRun (dstlen : Option Nat) (useNull : Bool) : List Bytes → Bytes → String → Bool → List String × String
+  | [], _, e, _ => ([], e)
+  | seg :: rest, pend, e, failed =>
+    if failed then
+      let r := mbsqRun dstlen useNull rest pend e true
+      ("skipped" :: r.1, r.2)
+    else
+      let r := mbsnrtowcsSt utf8Mbr pend seg seg.length (dstlen.map fun n => List.replicate n 0x7AAAAAAA)
+      let bad := r.1.ret.isNone
+      let e' := if bad then "EILSEQ" else e
+      let one := (match r.1.ret with | some k => toString k | none => "-1") ++ "@" ++ offStr r.1.srcp ++ "/" ++ e' ++ "/" ++
+        (if useNull ∨ bad then "-" else if r.2.isEmpty then "1" else "0") ++ "/" ++
+        (match dstlen with
+         | none => "-"
+         | some 0 => "-"
+         | some _ => String.intercalate "," (r.1.dst.map fun w => String.ofList (Nat.toDigits 16 w)))
+      let t := mbsqRun dstlen useNull rest r.2 e' bad
+      (one :: t.1, t.2)
+
+def mbsqOp (st mode dl : String) (segs : List String) : String :=
+  let dstlen : Option (Option Nat) := if dl = "null" then some none else dl.toNat?.map some
+  match dstlen, segs.mapM arg with
+  | some d, some ss =>
+    if (mode ≠ "ps" ∧ mode ≠ "null") ∨ (d.getD 0) > 64 then "bad-op"
+    else
+      let r := mbsqRun d (mode = "null") ss [] st false
+      String.intercalate " " r.1 ++ " e=" ++ r.2
+  | _, _ => "bad-op"
+
 /-- new errno state after an op: what the output says after `e=` (the harness keeps the errno a
     call left behind as the entry errno of the next call) -/
 def errnoAfter (st out : String) : String :=
@@ -111,6 +141,8 @@ def step (st : String) (line : String) : String × String :=
     | ["errno", n] =>
       if ["0", "ERANGE", "EINVAL", "EPERM", "ENOMEM", "EILSEQ", "ENOSPC"].contains n then "ok" else "bad-op"
     | ["locale"] => "utf8"
+    | ["mbsq", mode, dl, s1, s2] => mbsqOp st mode dl [s1, s2]
+    | ["mbsq", mode, dl, s1, s2, s3] => mbsqOp st mode dl [s1, s2, s3]
     | [op, d, s, n] =>
       if op = "strlcpy" ∨ op = "strlcat" ∨ op = "strpcpy" ∨ op = "strpcat" ∨ op = "mempcpy" then
         match arg d, arg s, n.toNat? with
